@@ -132,12 +132,43 @@ func (l *levelDownCache) Destroy(directory string, dbAddress address.Address) er
 	}
 
 	if directory != InMemoryDirectory {
-		if err := os.RemoveAll(keyPath); err != nil {
+		if err := removeDatastore(keyPath); err != nil {
 			return fmt.Errorf("unable to delete datastore: %w", err)
 		}
 	}
 
 	return nil
+}
+
+// removeDatastore removes the files of the leveldb store kept in dir, and dir itself unless
+// it holds other directories: the path of an address can extend the path of another one
+// (/orbitdb/<root>/a and /orbitdb/<root>/a/b), whose store is then kept in a sub-directory,
+// and destroying a database must not take the data of another one along
+func removeDatastore(dir string) error {
+	entries, err := os.ReadDir(dir)
+	if os.IsNotExist(err) {
+		return nil
+	} else if err != nil {
+		return err
+	}
+
+	nested := false
+	for _, entry := range entries {
+		if entry.IsDir() {
+			nested = true
+			continue
+		}
+
+		if err := os.Remove(path.Join(dir, entry.Name())); err != nil {
+			return err
+		}
+	}
+
+	if nested {
+		return nil
+	}
+
+	return os.Remove(dir)
 }
 
 // New Creates a new leveldb data store
